@@ -27,7 +27,8 @@ func init() {
 		ID:    "C03",
 		Level: "exploration",
 		Rule: "unit: one evaluation = one byte string presented to SecureMessaging.Decode as the response of one exchange (genuine, every single-bit flip, byte substitution at every position, truncation at every length, every deletion/duplication/permutation of data objects, outer status change, replay of every earlier response of the session, cross-session response, unprotected variants, extensions), " +
-			"over suites 3DES/AES-128/192/256 x random keys x start counters (zero, random, about to wrap); history: one evaluation = one DoAPDU call under an attacker script (pass, naked status with/without forwarding, deliver a withheld response later, replay, cross-session, bit flip); " +
+			"over suites 3DES/AES-128/192/256 x random keys x start counters (zero, random, about to wrap); history: one evaluation = one DoAPDU call - or one call of an exported single-command helper of NfcSession (GetChallenge, Internal/External/GeneralAuthenticate, MseSetAT, SelectEF, SelectAid, ReadBinaryFromOffset) - under an attacker script (pass, naked status with/without forwarding, deliver a withheld response later, replay, cross-session, bit flip), after each of which the caller's session must still be the installed one; " +
+			"status: per status word (quick: SW1 61..6F, 90 x SW2 00..FF and the named ones; thorough: all 65536 x 4 suites) the genuine protected response must decode exactly and keep the counters together, five unauthenticated responses claiming that status must be rejected; genuine responses of the unit level carry 9000, named and uniformly random status words; " +
 			"non-trivial = variant differs from the genuine response; distinct = hash of (suite, counter, variant bytes) resp. (script, exchange index)",
 		MinEvaluations: 20000,
 		Assumptions: []string{
@@ -285,7 +286,7 @@ func c03Unit(c *fw.Ctx, k *fw.K, i int) {
 			return
 		}
 		plain := genRespData(r, j%7 == 3)
-		sw := smSWs[r.IntN(len(smSWs))]
+		sw := drawSW(r)
 		sscPre := append([]byte{}, chip.SSC...)
 		resp := chip.Wrap(plain, sw)
 		foreign := chipsim.NewSM(suite, fkenc, fkmac, sscPre).Wrap(plain, sw)
@@ -394,12 +395,20 @@ func c03App(cmd *chipsim.Cmd) ([]byte, uint16) {
 	h.Write(cmd.Data)
 	x := h.Sum64()
 	if cmd.INS == 0xA4 {
-		if x%5 == 0 {
+		switch {
+		case x%5 == 0:
 			return nil, 0x6A82
+		case x%23 == 0:
+			return nil, 0x6283
+		case x%29 == 0:
+			return nil, smISOStatusWords[int(x>>16)%len(smISOStatusWords)]
 		}
 		return nil, 0x9000
 	}
 	n := int(x>>8) % 48
+	if cmd.INS == 0x84 || cmd.INS == 0x82 {
+		n = min(cmd.Ne, 300) // GET CHALLENGE / EXTERNAL AUTHENTICATE: as many bytes as asked for
+	}
 	if cmd.Ne == 0 {
 		n = 0
 	} else if n > cmd.Ne {
@@ -407,8 +416,13 @@ func c03App(cmd *chipsim.Cmd) ([]byte, uint16) {
 	}
 	r := mrand.New(mrand.NewPCG(x, 7))
 	sw := uint16(0x9000)
-	if x%11 == 0 {
+	switch {
+	case x%11 == 0:
 		sw = 0x6282
+	case x%13 == 0:
+		sw = smISOStatusWords[int(x>>16)%len(smISOStatusWords)]
+	case x%17 == 0:
+		sw = uint16(x >> 24)
 	}
 	return randBytes(r, n), sw
 }
@@ -550,20 +564,64 @@ func c03History(c *fw.Ctx, k *fw.K, i int) {
 
 	for t, a := range script {
 		action = a
-		cmd := genPlainCmd(r, false)
+		// the command of this exchange: a generic one through DoAPDU or one of the exported
+		// single-command helpers of NfcSession (they are how PACE, CA, TA, AA and file
+		// reading send their commands on an established session)
+		var call *smHelperCall
+		if i%3 != 0 && r.IntN(5) < 2 {
+			call = genHelperCall(r, smHelperOps[r.IntN(smHelperOpsSingle)], 256, nil)
+		} else {
+			call = genericCall(genPlainCmd(r, false))
+		}
+		cmd, _ := call.want(0, nil)
 		k.AddEvals(1)
-		k.Distinct(fmt.Sprintf("h|%v|%d|%s", script, t, cmd.String()))
+		k.Distinct(fmt.Sprintf("h|%v|%d|%s", script, t, call.String()))
 		k.Count("hist_action_" + a)
-		rr, err := nfc.DoAPDU(cmd.capdu(), "c03")
-		if err != nil || rr == nil {
+		var rr *iso7816.RApdu
+		var err error
+		var res smHelperResult
+		sent := tr.n
+		if call.op == "DoAPDU" {
+			rr, err = nfc.DoAPDU(cmd.capdu(), "c03")
+		} else {
+			k.Count("hist_via_" + call.op)
+			res = call.call(nfc)
+			err = res.err
+		}
+		// whatever was sent and answered: the session the caller installed stays installed
+		// (once a session exists, nothing may reach the caller unauthenticated afterwards)
+		if inst := nfc.SM(); inst == nil {
+			k.Violation("sm:history:session-dropped:"+call.op, fmt.Sprintf("after %s at exchange %d (attacker action %q) no secure-messaging session is installed any more: later responses reach the caller unauthenticated", call.String(), t, a),
+				map[string]any{"suite": suite.String(), "script": script, "exchange": t, "call": call.String()})
+			return
+		} else if p, ok := inst.(*iso7816.SecureMessaging); !ok || p != lib {
+			k.Violation("sm:history:session-replaced:"+call.op, fmt.Sprintf("after %s at exchange %d another secure-messaging object is installed than the caller's", call.String(), t),
+				map[string]any{"suite": suite.String(), "script": script, "exchange": t, "call": call.String()})
+			return
+		}
+		if tr.n != sent+1 {
+			k.Count("hist_call_not_one_transceive")
+		}
+		if call.op == "DoAPDU" && (err != nil || rr == nil) || call.op != "DoAPDU" && err != nil {
 			k.Count("hist_error_" + a)
 			nakedSince[t] = lastNaked
 			continue
 		}
 		nakedSince[t] = false
-		if forwarded && cur != nil && bytesEq(rr.Data, cur.data) && rr.Status == cur.sw {
-			k.Count("hist_ok_genuine")
-			continue
+		if call.op == "DoAPDU" {
+			if forwarded && cur != nil && bytesEq(rr.Data, cur.data) && rr.Status == cur.sw {
+				k.Count("hist_ok_genuine")
+				continue
+			}
+		} else {
+			rr = &iso7816.RApdu{Data: res.data}
+			if forwarded && cur != nil {
+				if ok, _ := call.resultAgrees(res, cur.data, cur.sw); ok {
+					k.Count("hist_ok_genuine")
+					k.Count("hist_ok_genuine_via_helper")
+					continue
+				}
+			}
 		}
 		key := "sm:history:" + a + ":accepted"
 		if a == "deliver-held" && len(held) > 0 {
@@ -576,6 +634,18 @@ func c03History(c *fw.Ctx, k *fw.K, i int) {
 			if onlyNaked {
 				key = "sm:history:deliver-held:after-only-naked"
 			}
+		}
+		if call.op != "DoAPDU" {
+			if key != "sm:history:deliver-held:after-only-naked" {
+				key += ":via-" + call.op
+			}
+			what := "success"
+			if res.hasSelected {
+				what = fmt.Sprintf("selected=%v", res.selected)
+			}
+			k.Violation(key, fmt.Sprintf("%s reported %s with %d bytes at exchange %d under attacker action %q although the chip did not produce such an answer for this exchange", call.String(), what, len(res.data), t, a),
+				map[string]any{"suite": suite.String(), "script": script, "exchange": t, "call": call.String(), "returned": hexCap(res.data, 100)})
+			continue
 		}
 		k.Violation(key, fmt.Sprintf("DoAPDU returned %d bytes / %04x at exchange %d under attacker action %q although the chip did not produce that answer for this exchange", len(rr.Data), rr.Status, t, a),
 			map[string]any{"suite": suite.String(), "script": script, "exchange": t, "command": cmd.String(), "returned": hexCap(rr.Data, 100), "status": fmt.Sprintf("%04x", rr.Status)})
@@ -597,4 +667,5 @@ func runC03(c *fw.Ctx) {
 		k.Nontrivial("")
 		c03History(c, k, i)
 	})
+	runC03Status(c)
 }
